@@ -389,7 +389,20 @@ func checkConv(t failer, c uint64, a int64) {
 	if err != nil || len(rest) != 0 || uint64(back) != c {
 		t.Fatalf("msgp round trip of %d gives %d, rest %d, err %v", c, back, len(rest), err)
 	}
+	// the encoding handed out by the previous call is still that call's amount
+	if heldEnc != nil {
+		var old currency.Coin
+		if _, err := old.UnmarshalMsg(heldEnc); err != nil || uint64(old) != heldVal {
+			t.Fatalf("the bytes MarshalMsg(nil) returned for %d decode to %d (%v) after %d was marshalled", heldVal, old, err, c)
+		}
+	}
+	heldEnc, heldVal = b, c
 }
+
+var (
+	heldEnc []byte
+	heldVal uint64
+)
 
 // floatToCoinWant: ok=false means an error is required.
 func floatToCoinWant(f float64) (want uint64, ok bool) {
